@@ -248,6 +248,10 @@ func (l *Lexer) parseBeginLex() error {
 				break
 			}
 		}
+		// (a first line of white space only is a blank line)
+		if l.restOfLineIsBlank() {
+			return nil
+		}
 		indents, err := l.setIndentType(count, ch)
 		if err != nil {
 			return err
@@ -299,6 +303,12 @@ head:
 			}
 		}
 
+		// a line of white space only is a blank line: it has no indentation to check
+		// (and must not fix the indentation type of the file)
+		if count > 0 && l.restOfLineIsBlank() {
+			count, chn = 0, RuneEOF
+		}
+
 		// get indent
 		indentNum, err := l.setIndentType(count, chn)
 		if err != nil {
@@ -337,6 +347,20 @@ func (l *Lexer) EndLine(endCursor int) {
 		startIdx = endCursor
 	}
 	lastLine.LineText = l.Source[startIdx:endCursor]
+}
+
+// restOfLineIsBlank - from the cursor to the end of the line (or of the source) there is
+// nothing but white space
+func (l *Lexer) restOfLineIsBlank() bool {
+	for i := l.cursor; ; i++ {
+		ch := l.getChar(i)
+		if ch == RuneCR || ch == RuneLF || ch == RuneEOF {
+			return true
+		}
+		if !IsWhiteSpace(ch) {
+			return false
+		}
+	}
 }
 
 // util
